@@ -60,6 +60,7 @@ def backgrounds(tier, phase):
         bgs.append(_hue_tint(h, 0.92, 0.05))   # light tint
         bgs.append(_hue_tint(h, 0.30, 0.08))   # dark tint
     bgs.append((160 + g, 160 + g, 160 + g))      # mid-light: relative luminance ~0.35, where black still beats white by far
+    bgs.append((142 - 2 * g, 142 - 2 * g, 142 - 2 * g))  # white reaches 3.0 against it but not 4.5; black reaches both
     if tier == "quick":
         bgs += [(115, 83, 215)]                # mid-tone, chromatic, L > 0.5: exercises the direction rule
         return _dedupe(bgs[:6] + bgs[6:9] + bgs[11:])
@@ -67,7 +68,7 @@ def backgrounds(tier, phase):
         bgs.append(_hue_tint(h, 0.55, 0.12))   # mid tints just above L = 0.5
         bgs.append(_hue_tint(h, 0.47, 0.10))   # and just below
     bgs += [(255, 0, 0), (0, 128, 0), (0, 0, 255), (255, 255, 0), (0, 255, 255), (255, 0, 255), (115, 83, 215),
-            (90, 90, 90), (110, 110, 110), (128, 128, 128), (200, 200, 200), (188, 188, 188), (153, 164, 156)]
+            (90, 90, 90), (110, 110, 110), (128, 128, 128), (200, 200, 200), (188, 188, 188), (153, 164, 156), (193, 74, 215)]
     return _dedupe(bgs)
 
 
@@ -141,6 +142,12 @@ def texts_for(bg, tier, phase):
                 cand = [cr for cr in side if cr[1] >= target]
                 if cand:
                     add(cand[0][0], "far_below")
+            # all but on the background: whichever way the text is walked, the first steps barely change the ratio, and
+            # crossing the background is a real alternative to moving away from it
+            for target in (1.02, 1.06):
+                cand = [cr for cr in side if cr[1] >= target]
+                if cand and cand[0][1] < 1.15:
+                    add(cand[0][0], "near_bg")
     return out
 
 
@@ -148,6 +155,29 @@ def texts_for(bg, tier, phase):
 # (not by reading the code) and pinned here so that the quick tier exercises them on every run:
 #  - relaxed mode: recursive pass fails, extended recursion (option A) fails, single relaxed shot (option B) succeeds
 BRANCH_WITNESS = [((177, 235, 241), (141, 109, 0)), ((177, 235, 240), (141, 109, 0))]
+#  - text all but on a mid-tone background, on the side of it the usual direction rule walks away from: moving away reaches
+#    the ordinary large-text minimum only at the very end of the line, crossing the background reaches it sooner (found by
+#    the near-background shell below; a direction rule that looks at the requested minimum answers them differently for
+#    an ordinary and a very_readable request)
+DIRECTION_WITNESS = [((179, 138, 46), (142, 142, 142)), ((188, 88, 211), (193, 74, 215)), ((196, 88, 184), (193, 74, 215)),
+                     ((108, 114, 108), (108, 108, 108)), ((144, 144, 158), (144, 144, 144)), ((180, 120, 120), (132, 132, 132)),
+                     ((150, 40, 255), (108, 108, 108))]
+SHELL_BGS = [(142, 142, 142), (128, 128, 128), (115, 83, 215), (193, 74, 215)]
+
+
+def near_background_shell(phase):
+    """Every colour of a step-12 cube (offset rotating with the phase) whose ratio against a mid-tone background is at most
+    1.08: the whole neighbourhood of the background, all hues and both sides, not only the seeded lightness lines."""
+    off = (4, 10, 1, 7)[phase % 4]
+    lv = list(range(off, 256, 12))
+    out = []
+    for bg in SHELL_BGS:
+        for r in lv:
+            for g in lv:
+                for b in lv:
+                    if _wc.ratio((r, g, b), bg) <= 1.08:
+                        out.append(((r, g, b), bg, "near_bg_shell"))
+    return out
 
 
 def pair_lattice(tier, phase):
@@ -158,6 +188,10 @@ def pair_lattice(tier, phase):
             out.append((t, bg, tag))
     for t, bg in BRANCH_WITNESS:
         out.append((t, bg, "branch_witness"))
+    for t, bg in DIRECTION_WITNESS:
+        out.append((t, bg, "direction_witness"))
+    if tier != "quick":
+        out += near_background_shell(phase)
     return out
 
 
